@@ -22,6 +22,27 @@ ASSUMPTIONS = ["caches are cleared between applications, so each application is 
 EXHAUSTIVE = {"quick": False, "thorough": False}
 
 
+def long_assign_return_chain(case):
+    """F-C09-02: a function ending in 'return xK' after a chain of more than 25 single-use assignments xi = x(i-1)."""
+    import ast
+    try:
+        tree = ast.parse(case.get("src", ""))
+    except SyntaxError:
+        return False
+    for fn in ast.walk(tree):
+        if isinstance(fn, (ast.FunctionDef, ast.AsyncFunctionDef)):
+            chain = 0
+            for stmt in fn.body:
+                if isinstance(stmt, ast.Assign) and len(stmt.targets) == 1 and isinstance(stmt.targets[0], ast.Name) and isinstance(stmt.value, ast.Name):
+                    chain += 1
+            if chain > 25 and isinstance(fn.body[-1], ast.Return):
+                return True
+    return False
+
+
+PREDICATES = {"long_assign_return_chain": long_assign_return_chain}
+
+
 def evaluate(case, info=None):
     kw = progcheck.fmt_opts(case.get("opts"))
     fmt = env.mod("main").format_code
